@@ -51,13 +51,13 @@ PROPS["C10"] = {
         "set(x); get() = x (lp_set_get)",
         "second order: one-step linear form under explicit no-overflow preconditions (lp2_step_linear); the only resting state under a constant input has velocity 0 and get() = x exactly, i.e. DC gain exactly 1 at rest (lp2_fixed_point_iff)",
         "NEGATION: second order wraps/panics near full scale (lp2_fullscale_overflow_witness): known finding F-C10",
-        "SECOND ORDER (Props/C10lp2.lean), every documented Butterworth k (integer k, k0 = floor(k^2/2^32), k1 = -floor(sqrt(2 k^2)), 2^16 <= k <= 2^31/sqrt2), both profiles: exact error recursion with the two floor remainders (lp2_error_recursion); admissibility and complex characteristic roots of every such pair (lp2_butterworth_admissible); input-to-state stability through an exactly multiplicative quadratic Lyapunov form (lp2_settles_of_safe, lp2_settles_of_safe2); a filter settled at |xo| <= 2^29 switched to a constant |x| <= 2^29 never panics / wraps / saturates and after finitely many updates stays within 4*2^32/k + 4 LSB for ever (lp2_level_change_pm2p29); the same for levels in the whole +-2^30 range when each step is at most 3*2^28, repeatable (lp2_level_change_pm2p30_step, Lp2Start); no panic and bounded outputs for ARBITRARY input sequences within +-2^29 (lp2_any_input_pm2p29); the same over all states reachable by set() and histories within +-2^28 (lp2_reachable_settles_pm2p28)",
+        "SECOND ORDER (Props/C10lp2.lean), every documented Butterworth k (integer k, k0 = floor(k^2/2^32), k1 = -floor(sqrt(2 k^2)), 2^16 <= k <= 2^31/sqrt2), both profiles: exact error recursion with the two floor remainders (lp2_error_recursion); admissibility and complex characteristic roots of every such pair (lp2_butterworth_admissible); input-to-state stability through an exactly multiplicative quadratic Lyapunov form (lp2_settles_of_safe, lp2_settles_of_safe2); MAIN RESULT lp2_level_change_pm2p30: a filter in a start state at ANY level |xo| <= 2^30 (set(xo), lp2_start2_reset, or the state reached by an earlier settled step) switched to ANY constant |x| <= 2^30 - i.e. every step up to 2^31, including those whose first updates saturate the input difference - never panics or wraps, and after finitely many updates it is again a start state and get() and every output stay within 4*2^32/k + 4 LSB of x for ever, so steps can be chained indefinitely (small steps: symmetric sector-safe region; steps above 3*2^28: approach-phase argument with a first-quadrant invariant, a two-piece velocity bound, decay of the quadratic form over floor(2^32/b) updates and hand-off to a sector-safe region, Lemmas/Lp2Big*.lean); earlier partial forms kept (lp2_level_change_pm2p29, lp2_level_change_pm2p30_step); no panic and bounded outputs for ARBITRARY input sequences within +-2^29 (lp2_any_input_pm2p29); the same over all states reachable by set() and histories within +-2^28 (lp2_reachable_settles_pm2p28)",
     ],
     "clauses_explored": [
-        "second order: settling for steps larger than 3*2^28 between levels beyond +-2^29, the 5% overshoot bound, and an explicit settling time (native sweep over k x level pairs; the proved part covers levels within +-2^29 and 'eventually')",
+        "second order: the 5% overshoot bound and an explicit settling time (native sweep over k x level pairs; the proved part is 'no overflow, and eventually within 4*2^32/k+4 LSB for ever' for all levels within +-2^30); levels between 2^30 and 0.95 of full scale (native only)",
         "second order never wraps for steps whose target level is below 0.95 of full scale (native, against an unbounded-integer reference of the same recurrence)",
     ],
-    "level_text": "The first-order clauses are theorems for all gains, all i64 states and all inputs. For the second order, no-overflow and settling within 4*2^32/k+4 LSB are theorems for every documented Butterworth gain and levels within +-2^29 (Lyapunov / input-to-state-stability argument over the integers); levels up to 2^30, the 5% overshoot and the settling time are explored only; the failing full-scale clause is a proved negation and a known finding.",
+    "level_text": "The first-order clauses are theorems for all gains, all i64 states and all inputs. For the second order, no-overflow and settling within 4*2^32/k+4 LSB are theorems for every documented Butterworth gain and every step between levels within +-2^30 (half of full scale; Lyapunov / input-to-state-stability argument over the integers plus an approach-phase argument for steps that saturate); levels beyond 2^30, the 5% overshoot and the settling time are explored only; the failing full-scale clause is a proved negation and a known finding.",
     "level_note": "Model: lp1Update, lp2Update, lpGet, lpSet (IdspModel/Model/Lowpass.lean). Lowpass<N> for N other than 1, 2 is unimplemented!() in the code and not modelled.",
     "rule": "lp1: arbitrary/set()/reachable states x lattice gains x full-scale alternations; lp2: k lattice x level pairs; each configuration distinct",
 }
@@ -144,6 +144,7 @@ PROPS["C05"] = {
     "rule": "i8 macc: the complete (u, s) plane x limit pairs x e1 lattice (complete e1 range in thorough); i8 mul/div all pairs; wider types lattice + random",
 }
 PROPS["C03"] = {
+    "modules": ["C03", "C03F"],
     "families": ["biquad", "num", "fbiquad"],
     "n_quick": 150000, "n_thorough": 1500000,
     "clauses_proved": [
@@ -152,11 +153,12 @@ PROPS["C03"] = {
         "IDENTITY returns x0, HOLD returns y1, proportional(k) returns clamp(floor(k*x0/ONE)) (identity_returns_x0, hold_returns_y1, proportional_exact, proportional_exact_of_representable)",
         "DF2T exact-arithmetic recurrence over any CommRing: clamped recurrence from the third sample on; equals DF1 from rest (df2t_third_output, df2t_run_recurrence, df2t_run_of_df1, df2t_eq_df1_from_rest, df2t_eq_df1_from_rest_zero_offset)",
         "NEGATION: a partial sum can overflow although the total fits, checked build only (update4_partial_sum_overflow_witness, update4_exact_checked_full_false): known finding F-C03",
+        "FLOAT SAMPLE TYPES (Props/C03F.lean), the f32/f64 model fbiquadUpdate4/5/2 instantiated over the reals with the standard rounding model FlModel u (u = 2^-24 / 2^-53): the rounded summing junction is within g5|b0 x0| + g5|b1 x1| + g4|b2 x2| + g3|a1 y1| + g2|a2 y2| of the exact sum, gk = (1+u)^k - 1 (fbiquad_sum_error, fbiquad_sum_error_uniform, tightness fbiquad_sum_error_tight); the clamped output of N = 4, 5 is within df1Bound of clamp(exact) and the clamp never enlarges the error (fbiquad45_output_error, fbiquad45_vs_df1Step, clip_error_does_not_grow); N = 2: step, first two and third-output bounds against the exact DF1 recurrence (fbiquad2_step_error, fbiquad2_step_vs_exact, fbiquad2_first_two_outputs_error, fbiquad2_third_output_error, fbiquad2_run_recurrence_error, fbiquad4_run_recurrence_error); with gradual underflow (FlModelU: additional absolute term eta per product) (fbiquad45_output_error_underflow, fbiquad2_third_output_error_underflow); DF2T vs DF1 from rest over whole runs of a stable filter: |y2 N - y1 N| <= G (B1 + B2) with G the l1 norm of the impulse response of the recursive part (fbiquad_df1_df2t_sequences_close, fbiquad_seqOut_eq_run, fbiquad_exact_instance_df2t_eq_df1); IDENTITY / HOLD / proportional return exactly x0 / y1 / k x0 under the IEEE exactness law FlModelX (fidentity_returns_x0, fhold_returns_y1, fproportional_returns, fspecial_df2t)",
     ],
     "clauses_explored": [
-        "f32/f64: the same expression to floating-point rounding; DF2T reproduces DF1 from rest for stable filters (native, tolerance scaled by filter gain)",
+        "f32/f64 against the real IEEE arithmetic: the same expression to floating-point rounding; DF2T reproduces DF1 from rest for stable filters (native, tolerance scaled by filter gain; the theorems above are about the standard rounding model, the bit-exact tie to Lean's Float32/Float is the fbiquad correspondence)",
     ],
-    "level_text": "Fixed-point clauses are theorems for all four widths; the DF2T clause is a theorem about the exact-arithmetic recurrence over any commutative ring; IEEE rounding is outside the theorems and explored natively.",
+    "level_text": "Fixed-point clauses are theorems for all four widths; the DF2T clause is a theorem about the exact-arithmetic recurrence over any commutative ring and, in Props/C03F.lean, about every arithmetic that satisfies the standard model of floating-point rounding (each + - x returns the exact result times 1+d, |d| <= u, optionally plus an absolute underflow term); that IEEE binary32/64 satisfies this model absent overflow is the textbook assumption and is part of the trusted base, not proved; NaN/inf behaviour is explored natively and tied bit-exactly by the fbiquad correspondence.",
     "level_note": "Model: biquadUpdate4/5/2, biquadAcc (IdspModel/Model/Biquad.lean); f32/f64: fbiquadUpdate4/5/2 (IdspModel/Model/BiquadF.lean) over an abstract carrier, tied bit-exactly with Lean Float32/Float (op family fbiquad). The fixed-point DF2T (documented as 'do not use') is tied by correspondence only.",
     "rule": "all widths, N in {4,5,2}, coefficient styles (arbitrary, integrator, double integrator, identity), fed-back histories, accumulator-overflow cases",
 }
